@@ -38,7 +38,7 @@ import Gts.Lemmas.SelShift
 import Gts.Model.MolTop
 import Gts.Bridge.Tables
 import Gts.Bridge.PanicSites
-import Gts.Lemmas.GbSafeRecord
+import Gts.Lemmas.GbFuel
 namespace Gts.C07
 open Gts Pars
 
@@ -377,6 +377,96 @@ example : Sorted (PS.mk sampleRecord []).rest.length (PS.mk sampleRecord []).stk
     (GenBank.readAll GenBank.Registry.default (sampleRecord ++ sampleRecord)).map
       (fun r => (r.1.length, r.2.2)) = some (2, true) := by
   refine ⟨trivial, ?_⟩
+  decide +kernel
+
+/-! ## the loops of the GenBank reader: fuel ("never hangs") -/
+
+/- FULL statement (same shape as `loc_fuel_stable`), which is FALSE:
+
+     theorem recordLoop_fuel_stable (length depth sub) (s : PS) (hs : Sorted s.rest.length s.stk)
+         (n m : Nat) (hn : 2 * s.rest.length + 2 ≤ n) (hnm : n ≤ m) :
+         (recordLoop length depth n sub).run' s = (recordLoop length depth m sub).run' s
+
+   The loop of `GenBankParser` does NOT consume input in every iteration: a SOURCE field without
+   ORGANISM pops the frame of `tryAllParsers` AND one more saved position; if a failing location
+   parser inside the feature table has leaked frames, that position lies BEFORE the current one
+   and the lines in between are read again, once per leaked frame.  The number of iterations is
+   quadratic in the input size (`join(join(…(1^3` leaks one frame per five bytes).  On the real
+   code a 28 KB record of that shape takes 22 s, 280 KB about forty minutes.  Refuted below from a
+   sorted state; from the FRESH state the model shows the same on
+   `FEATURES⏎a 1⏎a join(×20 1^3⏎ (x⏎)×20 SOURCE      x⏎//⏎` (176 bytes, 422 iterations against a
+   fuel of 354; evaluated with `#eval`, not a theorem: the kernel cannot run the well-founded
+   `LocParse.loc`).  Every such run ends in the error value, with or without fuel. -/
+
+/-- the refuted full statement: from the sorted state `GenBank.rescanState` (37 bytes left: twenty
+empty lines and a SOURCE field without ORGANISM; three saved copies of that position) fuel
+`76 = 2·37+2` and fuel `200` end in different states -/
+theorem recordLoop_fuel_full_refuted :
+    ¬ ∀ (length : Int) (depth : Nat) (sub : GenBank.Sub) (s : PS), Sorted s.rest.length s.stk →
+      ∀ n m, 2 * s.rest.length + 2 ≤ n → n ≤ m →
+        (GenBank.recordLoop length depth n sub).run' s =
+          (GenBank.recordLoop length depth m sub).run' s :=
+  GenBank.recordLoop_fuel_refuted
+
+/-- what holds of the record loop's fuel: running out of it can only ever show up as the error
+value.  An outcome other than that error — a record, or a panic — and its final state are the
+same for every larger fuel: no record is ever lost or altered by the fuel. -/
+theorem recordLoop_fuel_partial (length : Int) (depth : Nat) (k m : Nat) (sub : GenBank.Sub)
+    (s s' : PS) (r : Except Err GenBank.Sub)
+    (h : (GenBank.recordLoop length depth k sub).run' s = (r, s')) (hr : r ≠ .error .fail)
+    (hkm : k ≤ m) : (GenBank.recordLoop length depth m sub).run' s = (r, s') :=
+  GenBank.recordLoop_mono length depth k sub s r s' h hr m hkm
+
+/-- the continuation-line loop of `genbankFieldBodyParser` (indent `depth ≥ 1`; the LOCUS parser
+reports `depth ≥ 5`): every iteration consumes the indent, so with more fuel than bytes left the
+outcome and the final state do not depend on the fuel -/
+theorem bodyMore_fuel_stable (depth : Nat) (sep : UInt8) (hd : 1 ≤ depth) (n m : Nat)
+    (acc : Bytes) (k : Nat) (s : PS) (hn : s.rest.length < n) (hm : s.rest.length < m) :
+    (GenBank.bodyMore depth sep n acc k).run' s = (GenBank.bodyMore depth sep m acc k).run' s :=
+  GenBank.bodyMore_fuel depth sep hd n m acc k s hn hm
+
+/-- the taxonomy lines of SOURCE / ORGANISM: same measure -/
+theorem taxonMore_fuel_stable (depth : Nat) (hd : 1 ≤ depth) (n m : Nat) (acc : Bytes) (s : PS)
+    (hn : s.rest.length < n) (hm : s.rest.length < m) :
+    (GenBank.taxonMore depth n acc).run' s = (GenBank.taxonMore depth m acc).run' s :=
+  GenBank.taxonMore_fuel depth hd n m acc s hn hm
+
+/-- the further lines of DBLINK: same measure -/
+theorem dblinkMore_fuel_stable (depth : Nat) (hd : 1 ≤ depth) (n m : Nat) (f : GenBank.Fields)
+    (s : PS) (hn : s.rest.length < n) (hm : s.rest.length < m) :
+    (GenBank.dblinkMore depth n f).run' s = (GenBank.dblinkMore depth m f).run' s :=
+  GenBank.dblinkMore_fuel depth hd n m f s hn hm
+
+/-- a record that `GenBankParser` returns has consumed at least the five bytes of `LOCUS`
+(from any sorted state, fewer than 10^9 bytes left) … -/
+theorem genbankParser_consumes (reg : GenBank.Registry) (s : PS) (hs : Sorted s.rest.length s.stk)
+    (hlen : s.rest.length < 10 ^ 9) (v : GenBank.Record × GenBank.Registry)
+    (h : ((GenBank.genbankParser reg).run' s).1 = .ok v) :
+    ((GenBank.genbankParser reg).run' s).2.rest.length + 5 ≤ s.rest.length :=
+  GenBank.genbankParser_consumes reg s hs hlen v h
+
+/-- … so the scan loop's fuel `len(input) + 1` is adequate: any two fuels above the number of
+bytes give the same records (input shorter than 10^9 bytes; the bound is only there because the
+proof goes through the no-panic invariant). -/
+theorem parseAll_fuel_stable_partial (reg : GenBank.Registry) (input : Bytes)
+    (acc : List GenBank.Record) (n m : Nat) (hlen : input.length < 10 ^ 9)
+    (hn : input.length < n) (hm : input.length < m) :
+    GenBank.parseAll reg n input acc = GenBank.parseAll reg m input acc :=
+  GenBank.parseAll_fuel n m reg input acc hlen hn hm
+
+/-- non-vacuity: the refuting state is sorted and the two fuels are at least `2n+2`; in the sample
+record the body loop runs with `depth = 12`, and the scan loop on two records agrees for the
+fuels 177 and 1000 -/
+example : Sorted GenBank.rescanState.rest.length GenBank.rescanState.stk ∧
+    2 * GenBank.rescanState.rest.length + 2 ≤ 76 ∧
+    ((GenBank.recordLoop 0 12 76 GenBank.sub0).run' GenBank.rescanState).2.rest.length = 21 ∧
+    ((GenBank.recordLoop 0 12 200 GenBank.sub0).run' GenBank.rescanState).2.rest.length = 17 ∧
+    (GenBank.locusParser.run' ⟨sampleRecord, []⟩).1.toOption.map (·.depth) = some 12 ∧
+    (GenBank.parseAll GenBank.Registry.default 177 (sampleRecord ++ sampleRecord) []).map
+      (fun r => r.1.length) = some 2 ∧
+    (GenBank.parseAll GenBank.Registry.default 1000 (sampleRecord ++ sampleRecord) []).map
+      (fun r => r.1.length) = some 2 := by
+  refine ⟨⟨Nat.le_refl _, Nat.le_refl _, Nat.le_refl _, trivial⟩, ?_⟩
   decide +kernel
 
 end Gts.C07
